@@ -362,7 +362,7 @@ func (c *Ctx) skipStores(m Term, addr Term) Term {
 // are skipped, allocation frames are looked through for objects allocated before entry, and a
 // merge whose branches all reduce to the same version is that version.
 func (c *Ctx) readBase(m Term, owner Term, depth int) Term {
-	for ; depth < 64; depth++ {
+	for ; depth < 4096; depth++ {
 		if rec, ok := c.storeOf[m.S]; ok {
 			if c.distinctAddr(rec.addr, owner) {
 				m = rec.base
@@ -815,7 +815,7 @@ func (c *Ctx) groundCopies(m Term, idx Term, vs string) {
 		c.needQuantHeap = true
 		return
 	}
-	for depth := 0; depth < 32; depth++ {
+	for depth := 0; depth < 4096; depth++ {
 		if parts, isMerge := c.mergeOf[m.S]; isMerge {
 			for _, p := range parts {
 				c.groundCopies(p, idx, vs)
@@ -897,7 +897,7 @@ func (c *Ctx) groundFrames(m Term, owner Term) {
 		c.needQuantHeap = true // the quantified frame axioms of framedCopy are needed
 		return
 	}
-	for depth := 0; depth < 64; depth++ {
+	for depth := 0; depth < 4096; depth++ {
 		if parts, isMerge := c.mergeOf[m.S]; isMerge {
 			for _, p := range parts {
 				c.groundFrames(p, owner)
